@@ -21,6 +21,21 @@ CHECKS = {
    text="Exhaustive within stated bounds (K<=5 on the base worlds, K<=4 with one world or data atom, every single operation decoration at every position with K<=4, 5 gateway configurations quick / 8 thorough): data must equal the reference after the symmetric empty-object pruning and errors must be empty. Failures are clustered by (semantic atoms of the case, abstracted signature) and only clusters listed in known_findings.json are tolerated.",
    note="Trusted: harness/gqlref evaluator, canonical data model, gqlparser parser/validator, worker plumbing. Inputs outside the bounds (more fields, more simultaneous atoms) are not covered.",
    ref="DESIGN.md §6 C01"),
+ "C02": dict(engine="enum", cat="exploration",
+   technique="bounded-exhaustive enumeration of (schema set, operation) pairs; each operation is translated by the real planner and the translation is checked at the plan level and at the receiving in-memory services with the validator run against the receiver's own schema",
+   text="For every operation in the bound (all selection trees <=K fields, K<=5 on base worlds, K<=4 with one world atom, K<=3 with two, plus all single decorations) every sub-request must parse and validate against the receiving service's own schema, variables must coerce and carry the client's value or default, the plan must cover every client field coordinate, add only id/__typename and register each added helper for removal.",
+   note="Trusted: gqlparser validator, coordinate abstraction (response path + field name), in-memory services. Data-independent.",
+   ref="DESIGN.md §6 C02"),
+ "C06": dict(engine="enum", cat="fault_enumeration",
+   technique="exhaustive enumeration of mutation operations x delivery modes x every single downstream fault at every downstream call position, judged on the service request logs",
+   text="All mutation operations with <=K fields (K=4 quick, 5 thorough; same field twice under aliases) on worlds with mutation roots on up to three services, for batch sizes {1,2,3000}, plain and caching planner (cold and warm), single and batch-of-two delivery, and every fault kind injected at every downstream call: each root field must be received by its owner exactly once (never more under faults), by no other service, under the mutation keyword, and follow-up lookups must be queries.",
+   note="Trusted: request logs and counters of the in-memory services; single faults only.",
+   ref="DESIGN.md §6 C06"),
+ "C12": dict(engine="enum", cat="exploration",
+   technique="bounded-exhaustive enumeration of (world, query) pairs each run under six datasets (list lengths 1/default/5/20, duplicate entities) with the number of batched calls per service compared against the real planner's level structure",
+   text="For every query with <=K fields (K=5 quick, 6 thorough) on list-heavy worlds: HTTP calls per service <= plan levels containing the service, identical for list lengths 1..20, no identical id-only lookup twice in one batched call, and with duplicate entities the answer still equals the reference.",
+   note="Operations through the root node() entry point are excluded (mis-planned, see C01 findings). One Query call = one HTTP call at batch size 3000.",
+   ref="DESIGN.md §6 C12"),
 }
 
 NOT_YET = {}
